@@ -159,6 +159,8 @@ fn count_osstr_chars_for_exec(s: &OsStr) -> usize {
 struct MaxCharsCommandSizeLimiter {
     current_size: usize,
     max_chars: usize,
+    /// Bytes charged for each argument on top of the string and its terminator.
+    per_arg_overhead: usize,
 }
 
 impl MaxCharsCommandSizeLimiter {
@@ -166,6 +168,7 @@ impl MaxCharsCommandSizeLimiter {
         Self {
             current_size: 0,
             max_chars,
+            per_arg_overhead: 0,
         }
     }
 
@@ -181,14 +184,29 @@ impl MaxCharsCommandSizeLimiter {
         // POSIX requires that we leave 2048 bytes of space so that the child processes
         // can have room to set their own environment variables.
         const ARG_HEADROOM: usize = 2048;
+        // The kernel charges the argv/envp pointers against the same budget as the strings,
+        // so a command line of many short arguments is mostly pointers.
+        const POINTER_SIZE: usize = std::mem::size_of::<*const std::ffi::c_char>();
+        // sysconf() can report far more than exec accepts (Linux caps the total at 6 MiB however
+        // large the stack limit is, and a single string at 128 KiB). Like GNU xargs, never build
+        // command lines larger than this.
+        const SENSIBLE_ARG_MAX: usize = 128 * 1024;
         let arg_max = unsafe { uucore::libc::sysconf(uucore::libc::_SC_ARG_MAX) } as usize;
 
         let env_size: usize = env
             .iter()
-            .map(|(var, value)| count_osstr_chars_for_exec(var) + count_osstr_chars_for_exec(value))
+            .map(|(var, value)| {
+                count_osstr_chars_for_exec(var) + count_osstr_chars_for_exec(value) + POINTER_SIZE
+            })
             .sum();
 
-        Self::new(arg_max - ARG_HEADROOM - env_size)
+        Self {
+            current_size: 0,
+            max_chars: arg_max
+                .saturating_sub(ARG_HEADROOM + env_size)
+                .min(SENSIBLE_ARG_MAX),
+            per_arg_overhead: POINTER_SIZE,
+        }
     }
 }
 
@@ -198,7 +216,7 @@ impl CommandSizeLimiter for MaxCharsCommandSizeLimiter {
         arg: Argument,
         cursor: LimiterCursor<'_>,
     ) -> Result<Argument, ExhaustedCommandSpace> {
-        let chars = count_osstr_chars_for_exec(&arg.arg);
+        let chars = count_osstr_chars_for_exec(&arg.arg) + self.per_arg_overhead;
         if self.current_size + chars <= self.max_chars {
             let arg = cursor.try_next(arg)?;
             self.current_size += chars;
